@@ -23,8 +23,12 @@ package main
 
 import (
 	"bytes"
+	_ "embed"
+	"encoding/json"
 	"fmt"
+	"os"
 	"reflect"
+	"strings"
 	"sync"
 	"sync/atomic"
 
@@ -229,6 +233,22 @@ func (w *worker) eval(a *refsmb.Assign, r *explore.Run) {
 	w.check(w.key("unmarshal"), uerr == nil, func() string {
 		return fmt.Sprintf("%s.Unmarshal(%s) = %v; input = own Marshal of {%s}", cmd.Name, vf.HexS(b), uerr, label)
 	})
+	if uerr != nil {
+		// The obligation above is a known finding for 21 structures (findings/C04.json). A finding is
+		// identified by the inputs that fail: the classes (base, set of explicitly set fields) that are
+		// refused on the unchanged tree are listed, minimal ones only, in known_unmarshal_classes.json
+		// (committed, generated by tools/c04classes.py, never written at run time). A refused case whose
+		// class contains none of them is a DIFFERENT violation and is reported under its own key.
+		cls := devClass(a)
+		if os.Getenv("C04_DEBUG_CLASSES") != "" {
+			fmt.Fprintf(os.Stderr, "CLASS %s unmarshal %s\n", cmd.Name, cls)
+		}
+		if !explained(cmd.Name, cls) {
+			w.check(w.key("unmarshal/input-class:"+cls), false, func() string {
+				return fmt.Sprintf("%s.Unmarshal(%s) = %v; input = own Marshal of {%s}; no case of this class (%s) is refused on the unchanged tree", cmd.Name, vf.HexS(b), uerr, label, cls)
+			})
+		}
+	}
 	if upanic {
 		return
 	}
@@ -266,6 +286,60 @@ func (w *worker) eval(a *refsmb.Assign, r *explore.Run) {
 			})
 		}
 	}
+}
+
+//go:embed known_unmarshal_classes.json
+var knownClassesJSON []byte
+
+var knownClasses = func() map[string][][]string {
+	var raw map[string][]string
+	if err := json.Unmarshal(knownClassesJSON, &raw); err != nil {
+		panic("known_unmarshal_classes.json: " + err.Error())
+	}
+	out := map[string][][]string{}
+	for cmd, l := range raw {
+		for _, c := range l {
+			out[cmd] = append(out[cmd], strings.Split(c, ","))
+		}
+	}
+	return out
+}()
+
+// explained: some listed class of cmd has the same base and only fields that cls sets too.
+func explained(cmd, cls string) bool {
+	have := strings.Split(cls, ",")
+	for _, k := range knownClasses[cmd] {
+		if k[0] != have[0] {
+			continue
+		}
+		all := true
+		for _, f := range k[1:] {
+			found := false
+			for _, h := range have[1:] {
+				if h == f {
+					found = true
+				}
+			}
+			all = all && found
+		}
+		if all {
+			return true
+		}
+	}
+	return false
+}
+
+func devClass(a *refsmb.Assign) string {
+	p := []string{"base=zero"}
+	if a.Full {
+		p[0] = "base=full"
+	}
+	for i, k := range a.Dev {
+		if k > 0 {
+			p = append(p, a.C.Fields[i].Name)
+		}
+	}
+	return strings.Join(p, ",")
 }
 
 // compare evaluates one obligation per field; returns true if any field differs.
